@@ -90,6 +90,7 @@ static void mode_c0102(const Args &a, bool c02) {
         GraphSpec s;
         if (!a.replay.empty()) { std::ifstream in(a.replay); if (!parse_spec(in, s)) { emit_harness_failure("cannot parse replay spec"); exit(2); } use_int = a.gets("wtype", "double") == "int"; }
         else if (a.geti("large", 1) && r.chance(0.01)) s = gen_large_distinct(r);
+        else if (a.geti("large", 1) && r.chance(0.12)) s = gen_wide_mid(r, use_int, 40, 90);
         else s = gen_graph(r, o);
         CaseOut co(i);
         int dim = cycle_space_dim(s);
